@@ -48,6 +48,10 @@ const c12Timeout = 250 * time.Millisecond
 type c12Model struct {
 	complete  bool
 	malformed bool
+	// a field name or value has octets outside the HTTP token / field-value grammar (bit flips produce them):
+	// RFC 7540 does not fix their treatment (C20 leaves them out for the same reason), so the client may deliver
+	// or refuse such a response and the content oracle does not apply
+	unspecified bool
 	status    string
 	fields    []refhpack.Field
 	body      []byte
@@ -92,6 +96,11 @@ func c12Reference(b []byte) (map[uint32]*c12Model, bool) {
 			if ended[blockStream] {
 				return true // the response was over already: what follows on the stream cannot change what was delivered
 			}
+			for _, f := range fields {
+				if !c12InGrammar(f) {
+					m.unspecified = true
+				}
+			}
 			if !hdrSeen[blockStream] {
 				hdrSeen[blockStream] = true
 				ok, _ := wellFormedResponse(fields)
@@ -107,7 +116,7 @@ func c12Reference(b []byte) (map[uint32]*c12Model, bool) {
 				}
 			} else {
 				for _, f := range fields {
-					if strings.HasPrefix(f.Name, ":") || f.Name != strings.ToLower(f.Name) || connSpecific[f.Name] {
+					if strings.HasPrefix(f.Name, ":") || hasUpperASCII(f.Name) || connSpecific[f.Name] {
 						m.malformed = true
 					}
 				}
@@ -196,6 +205,43 @@ func c12DialInProgress() bool {
 		}
 	}
 	return false
+}
+
+func hasUpperASCII(s string) bool {
+	for i := 0; i < len(s); i++ {
+		if s[i] >= 'A' && s[i] <= 'Z' {
+			return true
+		}
+	}
+	return false
+}
+
+// c12InGrammar: name is an RFC 7230 token (after an optional leading colon), value is VCHAR / SP / HTAB / obs-text.
+func c12InGrammar(f refhpack.Field) bool {
+	n := strings.TrimPrefix(f.Name, ":")
+	if n == "" {
+		return false
+	}
+	for i := 0; i < len(n); i++ {
+		c := n[i]
+		if c <= 0x20 || c >= 0x7f || strings.IndexByte("\"(),/:;<=>?@[\\]{}", c) >= 0 {
+			return false
+		}
+	}
+	for i := 0; i < len(f.Value); i++ {
+		c := f.Value[i]
+		if (c < 0x20 && c != '\t') || c == 0x7f {
+			return false
+		}
+	}
+	return true
+}
+
+func c12Describe(m *c12Model) string {
+	if m == nil {
+		return "nothing on the stream"
+	}
+	return fmt.Sprintf("complete=%v malformed=%v status=%q fields=%v body=%d octets", m.complete, m.malformed, m.status, m.fields, len(m.body))
 }
 
 func c12Dump() string {
@@ -395,15 +441,20 @@ func c12Run(c c12Case) Outcome {
 		succ++
 		id, sent := idOf[tag]
 		m := ref[id]
+		if m != nil && m.unspecified {
+			continue
+		}
 		if !sent || m == nil || !m.complete {
 			if connDead {
-				// the reference stopped judging at a connection-level problem; only cross-delivery is checked then
-				if !hasTag(cl, tag) && len(cl.Fields) > 0 {
+				// the reference stopped judging at a connection-level problem; only cross-delivery is checked then,
+				// and only when no frame was mutated: a flipped bit or a changed stream id can put any tag, or none,
+				// on any stream, and delivering what the server sent on a stream is not cross-delivery
+				if len(c.Muts) == 0 && !hasTag(cl, tag) && len(cl.Fields) > 0 {
 					return fail("cross-delivery", "%s: request %s succeeded with fields %v (not its own)", desc, tag, cl.Fields)
 				}
 				continue
 			}
-			return fail("success-without-response", "%s: request %s (stream %d) was reported successful (status %d, %d body bytes) but the octets delivered do not contain a complete well-formed response on its stream", desc, tag, id, cl.Status, len(cl.Body))
+			return fail("success-without-response", "%s: request %s (stream %d) was reported successful (status %d, %d body bytes) but the octets delivered do not contain a complete well-formed response on its stream (reference: %+v; delivered fields %v)", desc, tag, id, cl.Status, len(cl.Body), c12Describe(m), cl.Fields)
 		}
 		if strconv.Itoa(cl.Status) != m.status || string(cl.Body) != string(m.body) {
 			return fail("wrong-response", "%s: request %s (stream %d) got status %d and %d body bytes; the stream carried status %s and %d bytes", desc, tag, id, cl.Status, len(cl.Body), m.status, len(m.body))
